@@ -221,8 +221,18 @@ def import_rows(chk, cfg, owner, modname, rules):
 CODEC_CORE = ("T-rt-bits", "T-unsafe-bits", "T-inj-bits", "T-width", "T-accept-bits")
 
 
+_ACTIVE = []
+
+
 def import_codec_core(chk, cfg):
     """Every property that speaks of "the symbol at position i" or "the code of a symbol" rests on the codec's own tables being
     consistent: to_bits injective and within BITS, try_from_bits its inverse, unsafe_from_bits agreeing with try_from_bits.  Those
     rows are C05's; they are evaluated here too, so that a decoder changed for one codec is reported under the property it breaks."""
     import_rows(chk, cfg, "C05", "props.C05", CODEC_CORE)
+    # ... and on the one place where a stored symbol is read back as an integer: `u8::from(&slice)` of a one-symbol slice (C03 S-byte)
+    if chk.pid != "C03" and "C03" not in _ACTIVE:
+        _ACTIVE.append("C03")
+        try:
+            import_rows(chk, cfg, "C03", "props.C03", ("S-byte",))
+        finally:
+            _ACTIVE.pop()
